@@ -35,9 +35,12 @@ pub fn render_to_string(view: impl FnOnce() -> View) -> String {
         }
         SSR_ROOT.with(|root| {
             root.dispose();
-            root.run_in(|| {
+            let ret = root.run_in(|| {
                 render_to_string_in_scope(view)
-            })
+            });
+            // The render is finished: release what it left in the root scope (counters, ...).
+            root.dispose();
+            ret
         })
     }
 }
@@ -110,6 +113,7 @@ pub async fn render_to_string_await_suspense(f: impl FnOnce() -> View) -> String
         let (tx, rx) = oneshot::channel();
         let mut tx = Some(tx);
         let mut view = View::default();
+        let mut buf = String::new();
 
         let is_hydrating = IS_HYDRATING.replace(true);
         provide_executor_scope(async {
@@ -135,6 +139,9 @@ pub async fn render_to_string_await_suspense(f: impl FnOnce() -> View) -> String
                 });
             });
             rx.await.unwrap();
+            // Render now, before the scopes of the view are disposed: disposing runs cleanup
+            // callbacks, which can still change what the view shows.
+            ssr_node::render_recursive_view(&view, &mut buf);
             handle.unwrap().dispose();
             // The render is finished: release what is left of it in the root as well (the effect
             // above, counters in the global scope, ...) instead of keeping it until the next
@@ -142,8 +149,6 @@ pub async fn render_to_string_await_suspense(f: impl FnOnce() -> View) -> String
             SSR_ROOT.with(|root| root.dispose());
             IS_HYDRATING.set(is_hydrating);
         }).await;
-        let mut buf = String::new();
-        ssr_node::render_recursive_view(&view, &mut buf);
         buf
     }
 }
@@ -249,6 +254,10 @@ pub fn render_to_string_stream(
                 let mut pending_futures = futures.take();
                 sycamore_futures::spawn_local_scoped(async move {
                     while let Some(fragment) = pending_futures.next().await {
+                        // Render the fragment now and not when the consumer gets around to it: the
+                        // view can still change afterwards (later tasks, cleanup callbacks), and
+                        // the output must not depend on how fast the stream is consumed.
+                        let fragment = render_suspense_fragment(fragment);
                         // The consumer may have dropped the stream (e.g. the client went away).
                         if tx.send(fragment).await.is_err() {
                             break;
@@ -286,7 +295,7 @@ pub fn render_to_string_stream(
             yield initial;
 
             while let Some(fragment) = rx.next().await {
-                yield render_suspense_fragment(fragment);
+                yield fragment;
             }
         }
     }
